@@ -380,6 +380,26 @@ func (fr *Frame) contractEnv(c *FuncContract, callee *ssa.Function, args []*Val,
 				vars[p.Name()] = retype(args[i], p.Type())
 			}
 		}
+		if callee == fr.fn {
+			// the contract of a closure may name the variables it captures
+			if fr.vals == nil {
+				fr.vals = map[ssa.Value]*Val{}
+			}
+			for _, fv := range callee.FreeVars {
+				v := fr.val(fv)
+				if _, isPtr := fv.Type().Underlying().(*types.Pointer); isPtr && fr.freeVars == nil {
+					// captured by reference: go/ssa hands the closure the variable's address; a variable that is
+					// never reassigned after capture (the only kind contracts name) is read through it
+					if _, ok := vars[fv.Name()]; !ok {
+						vars[fv.Name()] = fr.load(cur, fr.placeOf(v))
+					}
+					continue
+				}
+				if _, ok := vars[fv.Name()]; !ok {
+					vars[fv.Name()] = v
+				}
+			}
+		}
 		if callee.Pkg != nil {
 			pkg = callee.Pkg.Pkg
 		} else if callee.Origin() != nil && callee.Origin().Pkg != nil {
@@ -515,6 +535,9 @@ func (fr *Frame) applyContract(b *ssa.BasicBlock, idx int, ins ssa.Instruction, 
 	envPost := fr.contractEnv(c, callee, args, results, st, pre)
 	envPost.atCallSite = true
 	for _, en := range append(append([]*Clause{}, c.Ensures...), c.Assumes...) {
+		if mentionsInternalCalls(en.Expr) {
+			continue // the clause talks about the callee's internal calls: nothing is assumed from it here
+		}
 		skip := false
 		envPost.skip = &skip
 		f := envPost.eval(en.Expr).S
@@ -526,6 +549,21 @@ func (fr *Frame) applyContract(b *ssa.BasicBlock, idx int, ins ssa.Instruction, 
 	for _, a := range c.Assumes {
 		u.note("assumed (not proved) about %s: %s", shortKey(c.Key), a.Text)
 	}
+}
+
+// mentionsInternalCalls: the expression uses res() / argOf() / dominatedBy(), which only mean something inside the
+// function the contract belongs to.
+func mentionsInternalCalls(x ast.Expr) bool {
+	found := false
+	ast.Inspect(x, func(n ast.Node) bool {
+		if c, ok := n.(*ast.CallExpr); ok {
+			if id, ok := c.Fun.(*ast.Ident); ok && (id.Name == "res" || id.Name == "argOf" || id.Name == "dominatedBy") {
+				found = true
+			}
+		}
+		return !found
+	})
+	return found
 }
 
 func clauseID(c *Clause, k int) string {
